@@ -2784,3 +2784,147 @@ func ruleInternalName(c *Ctx, r *Rep) {
 		r.Undecided("census", token.NoPos, "no synthesised function name found in compiler.go")
 	}
 }
+
+// ---------------------------------------------------------------------------------------------------------------------
+
+func init() {
+	reg(&Rule{ID: "R-C05-argsview", Props: []string{"C05", "C19"}, Floor: 2,
+		Doc: "a user-supplied Go function (WithFunction/WithIterFunction) is only ever called with an argument slice of its own: the VM hands natives a view of its reusable env.args buffer, so the registration wraps the user's function and clones the slice; a callback that returns or keeps its arguments must not see them change",
+		Run: ruleArgsView})
+}
+
+func ruleArgsView(c *Ctx, r *Rep) {
+	p := c.Gojq
+	info := p.TypesInfo
+	n := 0
+	for _, fd := range c.Decls(p) {
+		if fd.Body == nil || !strings.HasSuffix(c.Fset.Position(fd.Pos()).Filename, "option.go") {
+			continue
+		}
+		// parameters of type func(any, []any) any: user callbacks
+		var cbs []types.Object
+		for _, fld := range fd.Type.Params.List {
+			sig, ok := info.TypeOf(fld.Type).(*types.Signature)
+			if !ok || sig.Params().Len() != 2 || sig.Results().Len() != 1 {
+				continue
+			}
+			if _, isSlice := sig.Params().At(1).Type().Underlying().(*types.Slice); !isSlice {
+				continue
+			}
+			for _, nm := range fld.Names {
+				cbs = append(cbs, info.Defs[nm])
+			}
+		}
+		if len(cbs) == 0 {
+			continue
+		}
+		// aliases of the raw callback (g := f) are raw too; a parameter reassigned to a function literal (f = func…{ g(…) })
+		// denotes the wrapper from then on
+		for _, st := range fd.Body.List {
+			as, ok := st.(*ast.AssignStmt)
+			if !ok || len(as.Lhs) != 1 || len(as.Rhs) != 1 {
+				continue
+			}
+			lid, ok := as.Lhs[0].(*ast.Ident)
+			if !ok {
+				continue
+			}
+			if rid, ok := unparen(as.Rhs[0]).(*ast.Ident); ok && as.Tok == token.DEFINE {
+				for _, o := range cbs {
+					if info.Uses[rid] == o {
+						cbs = append(cbs, info.Defs[lid])
+						break
+					}
+				}
+			}
+			if _, isLit := unparen(as.Rhs[0]).(*ast.FuncLit); isLit && as.Tok == token.ASSIGN {
+				for i, o := range cbs {
+					if info.Uses[lid] == o {
+						cbs = append(cbs[:i:i], cbs[i+1:]...)
+						break
+					}
+				}
+			}
+		}
+		// a closure handed to another registration helper of this file is that helper's obligation
+		delegated := map[*ast.FuncLit]bool{}
+		ast.Inspect(fd.Body, func(q ast.Node) bool {
+			if call, ok := q.(*ast.CallExpr); ok {
+				if f, ok := callee(info, call).(*types.Func); ok && f.Pkg() != nil && f.Pkg().Path() == pathGojq {
+					if d := c.Decl(p, f.Name()); d != nil && strings.HasSuffix(c.Fset.Position(d.Pos()).Filename, "option.go") {
+						for _, a := range call.Args {
+							if fl, ok := unparen(a).(*ast.FuncLit); ok {
+								delegated[fl] = true
+							}
+						}
+					}
+				}
+			}
+			return true
+		})
+		isCB := func(e ast.Expr) bool {
+			id, ok := unparen(e).(*ast.Ident)
+			if !ok {
+				return false
+			}
+			for _, o := range cbs {
+				if info.Uses[id] == o {
+					return true
+				}
+			}
+			return false
+		}
+		fresh := func(e ast.Expr) bool {
+			call, ok := unparen(e).(*ast.CallExpr)
+			if !ok {
+				return false
+			}
+			switch calleeName(info, call) {
+			case "slices.Clone":
+				return true
+			}
+			if id, ok := call.Fun.(*ast.Ident); ok && id.Name == "append" && len(call.Args) >= 1 {
+				if cl, ok := unparen(call.Args[0]).(*ast.CallExpr); ok && len(cl.Args) == 1 && isNilIdent(cl.Args[0]) {
+					return true // append([]any(nil), xs...)
+				}
+				if cl, ok := unparen(call.Args[0]).(*ast.CompositeLit); ok && len(cl.Elts) == 0 {
+					return true // append([]any{}, xs...)
+				}
+			}
+			return false
+		}
+		ast.Inspect(fd.Body, func(q ast.Node) bool {
+			switch x := q.(type) {
+			case *ast.FuncLit:
+				if delegated[x] {
+					n++
+					r.OK("callback:"+declKey(fd)+":delegated", x.Pos(), "%s wraps the user's function in a closure that another registration helper of option.go installs", declKey(fd))
+					return false
+				}
+			case *ast.CompositeLit:
+				if !isNamed(info.TypeOf(x), pathGojq, "function") {
+					return true
+				}
+				for _, el := range x.Elts {
+					v := el
+					if kv, ok := el.(*ast.KeyValueExpr); ok {
+						v = kv.Value
+					}
+					if isCB(v) {
+						n++
+						r.Bad("callback:"+declKey(fd)+":direct", v.Pos(), "%s installs the user's function itself as the callback: the VM calls callbacks with a view of its reusable env.args buffer, so a function that returns or keeps its arguments sees them overwritten by the next call (`[f(1;2), f(3;4)]` with f returning its arguments yields [[3,4],[3,4]])", declKey(fd))
+					}
+				}
+			case *ast.CallExpr:
+				if isCB(x.Fun) && len(x.Args) == 2 {
+					n++
+					r.Check(fresh(x.Args[1]), "callback:"+declKey(fd)+":call", x.Pos(), "%s calls the user's function with %s: a slice of its own (slices.Clone / append to nil): %v", declKey(fd), c.Src(x.Args[1]), fresh(x.Args[1]))
+				}
+			}
+			return true
+		})
+	}
+	if n == 0 {
+		r.Undecided("census", token.NoPos, "no use of a user callback found in option.go")
+	}
+}
